@@ -17,13 +17,16 @@ def bounds(tier):
             'constructors': ['from_strings'] + (['from_files', 'from_s3'] if tier == 'thorough' else ['(files, s3: subset)'])}
 
 
-def mk(n_rc, n_rd, n_other, allow, opt, source='string', order=None, T=60):
+def mk(n_rc, n_rd, n_other, allow, opt, source='string', order=None, T=60, with_replace=False):
     n = n_rc + n_rd + n_other
-    P = {'n_rc': n_rc, 'n_rd': n_rd, 'n_other': n_other, 'allow': allow, 'opt': opt, 'source': source, 'order': order}
+    P = {'n_rc': n_rc, 'n_rd': n_rd, 'n_other': n_other, 'allow': allow, 'opt': opt, 'source': source, 'order': order,
+         'with_replace': with_replace}
     sym = [('r%d' % i, 'str') for i in range(n)]
     pre = str_pre([s for s, _ in sym])
     cid = 'C11/rc%d-rd%d-other%d/%s/%s/%s' % (n_rc, n_rd, n_other, 'allow-incomplete' if allow else 'complete-only',
                                              '-O' if opt else 'default', source)
+    if with_replace:
+        cid += '/with-roReplace'
     if order:
         cid += '/order-' + ''.join(map(str, order))
     return Cell(pid=PID, cid=cid, harness='h_collect:accept_cell', params=P, sym=sym, pre=pre, stubs=(),
@@ -43,6 +46,12 @@ def cells(tier):
         for (n_rc, n_rd, n_other) in ((1, 1, 1), (0, 1, 1), (2, 1, 0), (1, 2, 0), (1, 0, 2), (0, 0, 0)):
             for opt in (False, True):
                 out.append(mk(n_rc, n_rd, n_other, False, opt, source=src, T=T))
+    # a roReplace is a message like any other (its class derives from RunningOrder): it is neither a roCreate
+    # nor removed from the readers
+    for (n_rc, n_rd, n_other) in ((1, 1, 1), (0, 1, 1), (1, 0, 2), (0, 0, 1), (2, 1, 1)):
+        for allow in (False, True):
+            for opt in (False, True):
+                out.append(mk(n_rc, n_rd, n_other, allow, opt, T=T, with_replace=True))
     # the roCreate / roDelete need not come first / last
     out.append(mk(1, 1, 2, False, False, order=[3, 1, 0, 2], T=T))
     out.append(mk(1, 1, 2, False, True, order=[2, 3, 1, 0], T=T))
